@@ -6,6 +6,7 @@ precedence applies) and z3 proves it equal to lhs - rhs of the flat equation for
 x / v / p / c / u / y lists must match the flat model's classification; distinct Modelica names must
 mangle to distinct Python identifiers (enumerated names here; symbolic strings in the CrossHair part).
 """
+import itertools
 import sys
 import traceback
 
@@ -48,6 +49,79 @@ def arith_trees(tier):
     return out
 
 
+# Real literals as they are spelled in Modelica source.  The generator prints the parsed VALUE, so what matters is
+# how many significant digits / which exponent a value needs: short and long mantissas, values whose Python repr
+# switches to exponent notation (>= 1e16, < 1e-4), integers beyond 2**53, integral floats.
+LITERALS_QUICK = ["7", "123456789", "2.5", "10.0", "1000000.0", "0.1", "9.80665", "123456.7", "1234567.5", "6378137.25", "0.1234567891",
+                  "3.141592653589793", "0.000123456789", "1e-3", "1.5e10", "2.5E-7", "6.02214076e23", "1.602176634e-19", "1e22", "12345678.9e-3"]
+LITERALS_MORE = ["12345678901234567890", "9007199254740993", "299792458.0", "100000.5", "0.30000000000000004", "1e16", "1.0e5", "123456789.123456789",
+                 "0.00001", "5e-324", "1.7976931348623157e308", "4.35e-11", "99999.95", "999999.5", "0.9999995", "1e-5", "123e4", "0.5e0"]
+
+
+def literal_trees(tier):
+    """Every literal alone, negated, as a factor, as a divisor (amplifies a wrong small literal), as a subtrahend
+    and as an exponent / a call argument."""
+    lits = LITERALS_QUICK + (LITERALS_MORE if tier == "thorough" else [])
+    out = []
+    for k, txt in enumerate(lits):
+        n = E.N(txt)
+        out += [n, E.Bn("*", E.V("a"), n), E.Bn("/", E.V("a"), n), E.Bn("-", n, E.V("b"))]
+        if tier == "thorough" or k % 2 == 0:
+            out += [E.Un("-", n), E.Bn("^", E.V("a"), n), E.Call("sin", E.Bn("*", n, E.V("time"))), E.Bn("+", E.Call("der", E.V("x")), n)]
+    out += [E.Un("+", E.V("a")), E.Un("+", E.Bn("*", E.V("a"), E.V("b"))), E.Bn("-", E.V("a"), E.Un("+", E.V("b")))]
+    return out
+
+
+# ---- classification family ------------------------------------------------------------------------------------
+# role -> (declaration prefix, declaration suffix, equation template or None)
+ROLES = {"state": ("", "", "der({n}) = k0 - {n};"), "state_out": ("output ", "", "der({n}) = k0 - {n};"),
+         "out": ("output ", "", "{n} = 2 * q0 + k0;"), "plain": ("", "", "{n} = q0 - k0;"), "in": ("input ", "", None),
+         "par": ("parameter ", " = 2", None), "const": ("constant ", " = 3", None)}
+# (long name, a name contained in it): prefix, suffix, inner part, digit / underscore extension
+NAME_PAIRS_QUICK = [("pos", "p"), ("vel", "e"), ("xx", "x")]
+NAME_PAIRS_MORE = [("pos", "os"), ("x1", "x"), ("v_x", "v"), ("k0k", "k0"), ("q0", "q")]
+
+
+def classification_models(tier):
+    """Two variables whose names contain one another, in every combination of the roles the SymPy backend
+    distinguishes (state / state+output / output / plain / input / parameter / constant) and both declaration orders,
+    next to a fixed state q0 and parameter k0."""
+    pairs = NAME_PAIRS_QUICK + (NAME_PAIRS_MORE if tier == "thorough" else [])
+    out = []
+    for (long_, short), rl, rs, order in itertools.product(pairs, ROLES, ROLES, ("LS", "SL")):
+        vs = [(long_, rl), (short, rs)]
+        if order == "SL":
+            vs.reverse()
+        if long_ not in ("q0", "k0k"):
+            vs = vs[:1] + [("q0", "state"), ("k0", "par")] + vs[1:]
+        else:  # the fixed helpers themselves take part in the containment
+            vs = vs + ([("k0", "par")] if long_ == "q0" else [("q0", "state")])
+            vs = [v for i, v in enumerate(vs) if v[0] not in [w[0] for w in vs[:i]]]
+        decl = "".join(f"  {ROLES[r][0]}Real {n}{ROLES[r][1]};\n" for n, r in vs)
+        eqs = "".join("  " + ROLES[r][2].format(n=n) + "\n" for n, r in vs if ROLES[r][2])
+        out.append((f"classify[{long_}:{rl},{short}:{rs},{order}]", "model M\n" + decl + "equation\n" + eqs + "end M;\n", "M"))
+    return out
+
+
+# ---- name family ----------------------------------------------------------------------------------------------
+NAME_SINGLES = ["sum", "abs", "len", "max", "id", "int", "print",                       # Python builtins
+                "keys", "get", "pop", "items", "values", "update", "copy", "psi",       # the generator's own clash list
+                "sin", "cos", "OdeModel", "t", "x", "eqs",                              # names the generated module uses itself
+                "_a", "a_", "a__", "x__y", "A", "a1",
+                "lambda", "pass", "is", "None",                                         # Python keywords that are plain Modelica identifiers
+                "self", "sympy", "mech"]                                                # names the class template relies on
+NAME_PAIRS = [("sum", "sum_"), ("keys", "keys_"), ("psi", "psi_"), ("get", "get__"), ("a", "a_"), ("a_", "a__"), ("x__y", "x_y"), ("A", "a")]
+
+
+def name_models(tier):
+    out = []
+    for nm in NAME_SINGLES:
+        out.append((f"name:{nm}", f"model M\n  Real {nm};\n  Real zz;\nequation\n  {nm} = 2 * zz;\n  der(zz) = {nm} - zz;\nend M;\n", "M"))
+    for a, b in NAME_PAIRS:
+        out.append((f"name:{a}+{b}", f"model M\n  Real {a};\n  Real {b};\n  Real zz;\nequation\n  {a} = 2 * zz;\n  {b} = {a} + zz;\n  der(zz) = {b} - {a};\nend M;\n", "M"))
+    return out
+
+
 def pr(t):
     # der(x) prints as a call already
     return E.pr(t, "min")
@@ -77,6 +151,12 @@ def check_module(col, case, text, cls, per_eq_cases=None):
     except SyntaxError as e:
         col.violation(f"{case}:not-python", f"generated module is not valid Python: {e}", {"model_text": text, "generated": src})
         return False
+    err = exec_module(src, cls)
+    if err:
+        # valid syntax but the module cannot be imported / the model class cannot be instantiated (solver stubbed)
+        col.violation(f"{case}:exec-raises:{err[0]}", f"generated module compiles but executing it / instantiating {cls} raises {err[0]}: {err[1]}",
+                      {"model_text": text, "generated": src})
+    col.bump("modules_executed")
     lists = module_lists(src)
     flat = pipeline.flat_reference(text, cls)
     fc = flat.classes[cls]
@@ -91,9 +171,17 @@ def check_module(col, case, text, cls, per_eq_cases=None):
     # approach: every flat symbol must correspond to exactly one identifier equal to its name with
     # '.' replaced by '__' followed by zero or more '_' (the generator's documented clash rule)
     name_of = {}
+    exact = {s.name: s.name.replace(".", "__") for s in syms if s.name.replace(".", "__") in ident}
     for s in syms:
         base = s.name.replace(".", "__")
-        cands = [i for i in ident if i.rstrip("_") == base.rstrip("_") and i.startswith(base)]
+        if s.name in exact:
+            cands = [base]
+        else:
+            cands = [i for i in ident if i.rstrip("_") == base.rstrip("_") and i.startswith(base)]
+            # an identifier that IS another variable's own name belongs to that variable (x and x_ side by side),
+            # unless nothing else is left - then the two variables really share it
+            free = [i for i in cands if i not in exact.values()]
+            cands = free or cands
         if len(cands) != 1:
             col.violation(f"{case}:symbol:{s.name}", f"flat variable {s.name} has {len(cands)} python symbols ({cands}) in the generated lists",
                           {"model_text": text, "generated": src})
@@ -162,6 +250,23 @@ def check_module(col, case, text, cls, per_eq_cases=None):
     return ok
 
 
+def exec_module(src, cls):
+    """Execute the generated module with the real SymPy and instantiate the class (compute_fg, the solver call,
+    stubbed).  -> None, or (exception type name, message)."""
+    from pymoca.backends.sympy import runtime
+    orig = runtime.OdeModel.compute_fg
+    runtime.OdeModel.compute_fg = lambda self: None
+    try:
+        ns = {}
+        exec(compile(src, "<generated>", "exec"), ns)
+        ns[cls]()
+    except Exception as e:
+        return type(e).__name__, str(e)[:120]
+    finally:
+        runtime.OdeModel.compute_fg = orig
+    return None
+
+
 def replay(src, cls, idx, name_of, pt, want_t):
     """Execute the generated module with the real SymPy (solver call stubbed) and evaluate eq idx."""
     import sympy
@@ -213,6 +318,10 @@ def work(batch):
             cases = ["state-eq"] + [f"expr:{t}" for t in texts]
             check_module(col, "batch", text, "M", per_eq_cases=cases)
             col.sample({"equation": "y0 = " + texts[0]}, 1)
+        elif kind == "models":
+            for cid, text, cls in batch[1]:
+                check_module(col, cid, text, cls)
+            col.sample({"model": batch[1][0][0]}, 1)
         else:
             _, cid, text, cls = batch
             check_module(col, cid, text, cls)
@@ -263,8 +372,12 @@ end M;
 def main():
     args = std_args(PROP)
     rep = Report(PROP, args.tier, "translation_validation", args.seed)
-    ts = arith_trees(args.tier)
-    items = [("exprs", ts[i:i + BATCH]) for i in range(0, len(ts), BATCH)]
+    import sympy.physics.mechanics  # noqa: F401  (imported before the workers fork)
+    from pymoca.backends.sympy import runtime  # noqa: F401  (pulls in scipy.integrate: seconds, once)
+    ts = arith_trees(args.tier) + literal_trees(args.tier)
+    fam = classification_models(args.tier) + name_models(args.tier)
+    items = [("models", fam[i:i + BATCH]) for i in range(0, len(fam), BATCH)]
+    items += [("exprs", ts[i:i + BATCH]) for i in range(0, len(ts), BATCH)]
     items += [("model", "classify", CLASSIFY, "M"), ("model", "names", NAMES, "M"),
               ("model", "repo:Spring", open(REPO + "/test/models/Spring.mo").read(), "Spring"),
               ("model", "repo:Aircraft", open(REPO + "/test/models/Aircraft.mo").read(), "Aircraft")]
@@ -273,8 +386,16 @@ def main():
     cov = rep.coverage
     cov["disagreements_checked"] = rep.queries.get("sat", 0)
     cov["functions_encoded"] = ["backends.sympy.generator.generate (executed); generated self.eqs entries -> Python ast -> z3 (py2z3)"]
-    cov["bounds"] = "expression trees of depth <= 2 (thorough 3) over + - * / ^, unary minus, der, sin/cos/tan, time, printed with the parentheses Modelica requires; variable values unbounded reals"
-    rep.assumptions += ["Python's ast module gives the precedence SymPy will see", "sin/cos/pow uninterpreted; divisors non-zero"]
+    cov["bounds"] = ("expression trees of depth <= 2 (thorough 3) over + - * / ^, unary minus / plus, der, sin/cos/tan, time, printed with the parentheses Modelica requires; "
+                     f"{len(LITERALS_QUICK) + (len(LITERALS_MORE) if args.tier == 'thorough' else 0)} numeric literal spellings (1..18 significant digits, exponent forms, values whose repr uses exponent notation" + ("; integers beyond 2**53, the smallest subnormal and the largest double" if args.tier == "thorough" else "") + ") "
+                     "alone / negated / as factor, divisor, subtrahend, exponent, call argument, next to der(); variable values unbounded reals; "
+                     f"classification: {len(classification_models(args.tier))} models with two variables whose names contain one another ({len(NAME_PAIRS_QUICK) + (len(NAME_PAIRS_MORE) if args.tier == 'thorough' else 0)} name pairs) "
+                     "in all 7x7 role combinations (state, state+output, output, plain, input, parameter, constant) and both declaration orders, plus one hand-written model; "
+                     f"names: {len(NAME_SINGLES)} single names (Python builtins, the generator's clash list, names used by the generated module, underscores, Python keywords, self/sympy/mech) and "
+                     f"{len(NAME_PAIRS)} pairs name / name_ ; every generated module is compiled AND executed / instantiated with the real SymPy (solver call stubbed)")
+    rep.assumptions += ["Python's ast module gives the precedence SymPy will see", "sin/cos/pow uninterpreted; divisors non-zero",
+                        "builtin calls are limited to what the generated module imports (sin, cos, tan): exp/sqrt/log/... are printed as bare calls without an import (NameError on execution) and are treated as outside the backend's subset",
+                        "a sat answer is reported only if it replays numerically (atol 1e-9 + rtol 1e-9): a wrong literal that is tiny in absolute terms shows up through the a / literal and a * literal positions"]
     if not cov.get("equations"):
         rep.harness_error("nothing compared")
     return rep.finish()
